@@ -908,6 +908,19 @@ pub mod verif {
             self.actor.state.verif_snapshot(&namespace, peer)
         }
     }
+
+    /// Decode a gossip message the way `engine/gossip.rs::receive_loop` does and encode it again:
+    /// the variant (0 `Put`, 1 `ContentReady`, 2 `SyncReport`) and the bytes, or `None` if the
+    /// bytes are not a message.
+    pub fn gossip_op_reencode(bytes: &[u8]) -> Option<(u8, Vec<u8>)> {
+        let op: Op = postcard::from_bytes(bytes).ok()?;
+        let tag = match &op {
+            Op::Put(_) => 0,
+            Op::ContentReady(_) => 1,
+            Op::SyncReport(_) => 2,
+        };
+        Some((tag, postcard::to_stdvec(&op).ok()?))
+    }
 }
 
 /// Event emitted when a sync operation completes
